@@ -258,7 +258,7 @@ func runC16(s *core.Sim, tier string) RunInfo {
 		}
 		if p.fromHeight == 0 && p.fromHash == "" && headH > 0 && p.blockTime >= 8*time.Second && shape != "halted" {
 			cut := w.Ch.At(headH).Time().Add(-p.window)
-			for h := range everStored { // = stored at the end of the previous cycle
+			for _, h := range sortedHeights(everStored) { // = stored at the end of the previous cycle
 				if _, ok := idx[h]; !ok && w.Ch.At(h).Time().After(cut) {
 					s.Violate("pruned-inside-window", nil, "height %d (time %v) was deleted although it is younger than head(%d).Time-PruningWindow=%v [%s]", h, w.Ch.At(h).Time().Format("15:04:05"), headH, cut.Format("15:04:05"), p.desc)
 					break
